@@ -232,6 +232,23 @@ def run(ctx):
         out, rc, err = relib.run_batch(probe, [kf], 60, env)
         if out and 'timeout' in out[0]:
             res.violation({'what': '(a*)*b on aaaa: exponential time (nullable loop body)', 'input': [{'pats': [hx(b'(a*)*b')], 'line': hx(b'aaaa')}]}, kf='KF-EMPTY-LOOP')
+        # malformed constructs must be REJECTED (fix 66f245a / 3139e7f), the neighbouring valid forms accepted -- judged on the
+        # implementation's answer alone
+        MUST_REJECT = [[b'(a)(b{3,1})', b'c'], [b'ab{3,1}'], [b'a{3,1}|b'], [b'x(|)'], [b'(|)'], [b'a)'], [b'(a'], [b'a{2x'], [b'a{1('], [b'a{'], [b'a{1'],
+                       [b'a{1,'], [b'a{1,2'], [b'a{129}'], [b'a{2,1}'], [b'a)(b'], [b'c', b'a)(b'], [b'[a', b'b]'], [b'[a'], [b'a\\'], [b'a\\', b'b)'], [b'x', b'(y']]
+        MUST_ACCEPT = [[b'a{2}'], [b'a{,}'], [b'a{}'], [b'a{1,2}b'], [b'(|a)'], [b'(a|)'], [b'()'], [b'a||b'], [b'|a'], [b'a|'], [b'*a'], [b'a\\)'], [b'[)]', b'[(]'],
+                       [b'(a)(b)', b'c'], [b'[]a]'], [b'a\\\\']]
+        ma = [req(0, 2, ps, [(0, b'a\n')]) for ps in MUST_REJECT + MUST_ACCEPT]
+        outs_ma, _ = relib.run_all(probe, ma, chunk=100, timeout=120, env=env)
+        for k, (ps, a) in enumerate(zip(MUST_REJECT + MUST_ACCEPT, outs_ma)):
+            res.evaluations += 1
+            want_rej = k < len(MUST_REJECT)
+            if a is None:
+                continue
+            if want_rej != a.startswith('rej'):
+                res.violation({'what': ('a malformed pattern (set) is accepted instead of rejected' if want_rej else 'a valid pattern (set) is rejected'),
+                               'input': [{'pats': [hx(p) for p in ps], 'pattern_text': [p.decode('latin-1') for p in ps]}],
+                               'expected': 'rej' if want_rej else 'ok ...', 'observed': a[:120]})
         # the instruction limit NINST: reservations just below and above it, compiled for real (no "big" shortcut)
         lim = [b'(((a{128}){2}){2}){126}', b'(((a{128}){2}){2}){127}', b'(((a{128}){2}){2}){126,}', b'((((a{128}){128}){128}){128})',
                b'(((((a{128}){128}){128}){128}){128})', b'((a{128}){128}){31}', b'((a{128}){128}){7}', b'((a{128}){128}){8}', b'(a{0}){128}',
